@@ -2,15 +2,11 @@
 import DSModel.Kll.Driver
 import DSModel.DriverLoop
 import DSGen.Kll
+import DSModel.Kll.Gen
 open DS
 
-def kllParams : Kll.Params :=
-  { m := DSGen.kll_DEFAULT_M, pow3 := DSGen.kll_powers_of_three, splitDepth := DSGen.kll_INT_CAP_SPLIT_DEPTH,
-    minK := DSGen.kll_MIN_K, maxK := DSGen.kll_MAX_K }
-
-def kllErr : Kll.ErrConsts :=
-  { pmfA := Float.ofBits DSGen.kll_ERR_PMF_A_bits, pmfB := Float.ofBits DSGen.kll_ERR_PMF_B_bits,
-    cdfA := Float.ofBits DSGen.kll_ERR_CDF_A_bits, cdfB := Float.ofBits DSGen.kll_ERR_CDF_B_bits }
+def kllParams : Kll.Params := Kll.genParams
+def kllErr : Kll.ErrConsts := Kll.genErr
 
 def constsLine : String :=
   s!"CONSTS {DSGen.kll_DEFAULT_K} {DSGen.kll_DEFAULT_M} {DSGen.kll_MIN_K} {DSGen.kll_MAX_K} P3" ++
